@@ -205,15 +205,35 @@ func buildAF(class string, r *rng) *astits.PacketAdaptationField {
 	pcr := func() *astits.ClockReference {
 		return &astits.ClockReference{Base: cr33(r), Extension: int64(r.intn(300))}
 	}
+	// values left behind cleared flags (a caller re-using one struct and toggling the flags, a re-multiplexer dropping a part of a parsed
+	// field): only what is flagged is written and counted
+	stale := func(a *astits.PacketAdaptationField) *astits.PacketAdaptationField {
+		if r.intn(3) == 0 {
+			a.OPCR = pcr()
+		}
+		if r.intn(3) == 0 {
+			a.TransportPrivateData, a.TransportPrivateDataLength = r.bytes(5), 5
+		}
+		if r.intn(3) == 0 {
+			a.AdaptationExtensionField = &astits.PacketAdaptationExtensionField{HasLegalTimeWindow: true, LegalTimeWindowOffset: 77}
+		}
+		if r.intn(3) == 0 {
+			a.SpliceCountdown = 9
+		}
+		if !a.HasPCR && r.intn(3) == 0 {
+			a.PCR = pcr()
+		}
+		return a
+	}
 	switch class {
 	case "none":
 		return nil
 	case "rai":
-		return &astits.PacketAdaptationField{RandomAccessIndicator: true}
+		return stale(&astits.PacketAdaptationField{RandomAccessIndicator: true})
 	case "pcr":
-		return &astits.PacketAdaptationField{HasPCR: true, PCR: pcr()}
+		return stale(&astits.PacketAdaptationField{HasPCR: true, PCR: pcr()})
 	case "raipcr":
-		return &astits.PacketAdaptationField{RandomAccessIndicator: true, HasPCR: true, PCR: pcr()}
+		return stale(&astits.PacketAdaptationField{RandomAccessIndicator: true, HasPCR: true, PCR: pcr()})
 	case "priv10":
 		return &astits.PacketAdaptationField{HasTransportPrivateData: true, TransportPrivateData: r.bytes(10), TransportPrivateDataLength: 10}
 	case "rich":
